@@ -65,10 +65,20 @@ def gen(rng, idx, tier, seed):
         n = int(rng.integers(2, 11)) if rng.random() > 0.03 else 1
         xs = mono(rng, n, -5, 20)
         kind = str(rng.choice(['inside', 'same', 'beyond', 'interleaved',
-                               'subset']))
+                               'subset', 'shifted']))
         m = int(rng.integers(1, 9))
+        if rng.random() < 0.3:
+            # large coordinate values with small spacing (time axes in
+            # seconds, heights above a datum)
+            xs = xs + float(rng.choice([1e4, 1e7, 1.7e9]))
         if kind == 'same':
             nxs = xs.copy()
+        elif kind == 'shifted' and n > 1:
+            # same number of levels, each moved by a fraction of the spacing
+            frac = float(rng.choice([0.25, 0.5, -0.25, 0.1]))
+            dx = np.diff(xs)
+            nxs = xs + frac * np.append(dx, dx[-1])
+            nxs = np.clip(nxs, xs.min(), xs.max())
         elif kind == 'subset':
             nxs = xs[::2].copy()
         elif kind == 'inside':
@@ -137,7 +147,8 @@ def weights_laws(xs, nxs, weights, extrapolate):
         return ['non-finite weights']
     span = max(float(xs.max() - xs.min()), 1.0)
     f32 = any(getattr(a, 'dtype', None) == np.float32 for a in (xs0, nxs0))
-    tol = (4e-6 if f32 else 1e-9) * span
+    tol = (4e-6 if f32 else 1e-9) * span + 256 * np.finfo('f8').eps * \
+        float(np.abs(xs).max())
     cs = w.sum(0)
     if np.abs(cs - 1).max() > (1e-5 if f32 else 1e-9):
         p.append('weights of target %d sum to %r' % (
@@ -241,6 +252,10 @@ def drain(res):
     return p
 
 
+def span_of(xs):
+    return float(np.max(xs) - np.min(xs)) if np.size(xs) else 0.0
+
+
 def run(spec, res):
     install()
     import PseudoNetCDF as pnc
@@ -325,7 +340,9 @@ def run(spec, res):
             if got.shape != exp.shape:
                 problems.append('%s: lin has shape %s expected %s'
                                 % (mode, got.shape, exp.shape))
-            elif np.abs(got - exp).max() > 1e-8 * (1 + np.abs(exp).max()):
+            elif np.abs(got - exp).max() > 1e-8 * (1 + np.abs(exp).max()) + \
+                    1e3 * np.finfo('f8').eps * np.abs(xs).max() * \
+                    max(1.0, float(np.abs(sl).max())):
                 j = np.unravel_index(np.argmax(np.abs(got - exp)), exp.shape)
                 problems.append('%s along axis %d of rank %d: linear profile '
                                 'not reproduced at %s: got %r expected %r'
@@ -336,7 +353,7 @@ def run(spec, res):
             if mode == 'filedim':
                 gz = np.asarray(out.variables['z'][...], 'f8')
                 if gz.shape != tz.shape or np.abs(gz - tz).max() > 1e-9 * (
-                        1 + np.abs(tz).max()):
+                        1 + np.abs(tz).max()) + 1e-9 * span_of(xs):
                     problems.append('coordinate z after interpolation %s, '
                                     'expected %s' % (gz, tz))
         except LawBroken:
